@@ -206,9 +206,12 @@ func (s *streamWriter) Start() {
 	s.init()
 }
 
+// noPID is the index that stands for "no PID" (a message without sender).
+const noPID int32 = -1
+
 func lookupPIDs(m map[uint64]int32, pid *actor.PID, pids []*actor.PID) (int32, []*actor.PID) {
 	if pid == nil {
-		return 0, pids
+		return noPID, pids
 	}
 	max := int32(len(m))
 	key := pid.LookupKey()
